@@ -165,13 +165,28 @@ func (bt *Tree) Copy() *Tree {
 		nodes = nodes[1:]
 		nodeCopies = nodeCopies[1:]
 		for _, e := range n.edges {
-			cpt := &node{key: e.target.key, data: e.target.data}
+			cpt := &node{key: e.target.key, data: copyData(e.target.data)}
 			cpn.edges = append(cpn.edges, &edge{label: e.label, target: cpt})
 			nodes = append(nodes, e.target)
 			nodeCopies = append(nodeCopies, cpt)
 		}
 	}
 
+	return cp
+}
+
+// copyData makes a deep copy of a node's data so that the copy isn't affected
+// by subsequent in-place updates to the original.
+func copyData(data []encoding.Sequence) []encoding.Sequence {
+	if data == nil {
+		return nil
+	}
+	cp := make([]encoding.Sequence, len(data))
+	for i, seq := range data {
+		if seq != nil {
+			cp[i] = append(encoding.Sequence(nil), seq...)
+		}
+	}
 	return cp
 }
 
